@@ -14,7 +14,7 @@ import httpcore
 def _states(su: Setup) -> str:
     import re
 
-    return ",".join(sorted(re.sub(r", Request Count: \d+", "", c.info()) for c in su.pool._connections))
+    return ",".join(sorted(re.sub(r", Request Count: \d+", "", c.info()) for c in su.pool.connections))
 
 
 # caller layouts: origin index of each caller
@@ -115,7 +115,7 @@ def _pool_conc(layout: tuple[int, ...], devs: list[tuple[int, int]], behaviours:
         P.cover("waited")
     if cancel_at and rt.task("c0").cancel_deliveries:
         P.cover("cancelled")
-    P.check(len(su.pool._requests) == 0 or bool(rt.deadlocked), "queue-empty-at-quiescence", f"{sig}:queue-not-empty", prop="C07")
+    P.check(scen.n_requests(su.pool) == 0 or bool(rt.deadlocked), "queue-empty-at-quiescence", f"{sig}:queue-not-empty", prop="C07")
     # ------------------------------------------- C05 / C06 at quiescence (no caller left)
     if not rt.deadlocked:
         stuck = scen.stuck_connections(su.pool)
